@@ -112,7 +112,6 @@ pub fn run_pipeline(input: &str, ctx: &mut CaseCtx) -> PipeOutcome {
 
 /// Remove tokens while the parse result stays cyclic; key the finding by the token classes that remain.
 pub fn minimal_cyclic_pattern(tokens: &[garnish_lang_compiler::lex::LexerToken]) -> String {
-    use garnish_lang_compiler::lex::TokenType;
     let is_cyclic = |toks: &Vec<garnish_lang_compiler::lex::LexerToken>| -> bool {
         match parse_g(toks) {
             Ok(Ok(p)) => tree_has_cycle(p.get_root(), p.get_nodes()),
@@ -135,32 +134,7 @@ pub fn minimal_cyclic_pattern(tokens: &[garnish_lang_compiler::lex::LexerToken])
             break;
         }
     }
-    let class = |t: TokenType| -> &'static str {
-        match t {
-            TokenType::Whitespace => "ws",
-            TokenType::Subexpression => "blank-line",
-            TokenType::ExpressionSeparator => "semicolon",
-            TokenType::ExpressionTerminator => "terminator",
-            TokenType::Annotation | TokenType::LineAnnotation => "annotation",
-            TokenType::Number | TokenType::CharList | TokenType::ByteList | TokenType::Symbol | TokenType::UnitLiteral | TokenType::Value | TokenType::True | TokenType::False => "value",
-            TokenType::Identifier => "identifier",
-            TokenType::StartGroup => "(",
-            TokenType::EndGroup => ")",
-            TokenType::StartExpression => "{",
-            TokenType::EndExpression => "}",
-            TokenType::StartSideEffect => "[",
-            TokenType::EndSideEffect => "]",
-            TokenType::Comma => "comma",
-            TokenType::InfixIdentifier => "infix-id",
-            TokenType::PrefixIdentifier => "prefix-id",
-            TokenType::SuffixIdentifier => "suffix-id",
-            TokenType::Pair => "pair",
-            TokenType::EmptyApply | TokenType::RightInternal | TokenType::LengthInternal => "suffix",
-            TokenType::AbsoluteValue | TokenType::Opposite | TokenType::BitwiseNot | TokenType::Not | TokenType::Tis | TokenType::TypeOf | TokenType::LeftInternal | TokenType::Reapply => "prefix",
-            _ => "binary",
-        }
-    };
-    cur.iter().map(|t| class(t.get_token_type())).collect::<Vec<_>>().join(" ")
+    cur.iter().map(|t| token_class(t.get_token_type())).collect::<Vec<_>>().join(" ")
 }
 
 fn classify(out: &PipeOutcome, input: &str, ctx: &mut CaseCtx) {
